@@ -276,6 +276,18 @@ fn real_run(script: &str, scratch_root: &std::path::Path, n: u64) -> Obs {
             Err(_) => break None,
         }
     };
+    // orphans of a shell that has ended (a child that killed its parent and goes on) get a moment to
+    // finish — their output belongs to the observation — before the group is killed
+    if exit.is_some() {
+        let grace = std::time::Instant::now() + std::time::Duration::from_millis(400);
+        while std::time::Instant::now() < grace {
+            let alive = std::process::Command::new("kill").args(["-0", "--", &format!("-{pgid}")]).stderr(std::process::Stdio::null()).status().is_ok_and(|s| s.success());
+            if !alive {
+                break;
+            }
+            std::thread::sleep(std::time::Duration::from_millis(3));
+        }
+    }
     let _ = std::process::Command::new("kill").args(["-9", "--", &format!("-{pgid}")]).stderr(std::process::Stdio::null()).status();
     if exit.is_none() {
         let _ = child.kill();
